@@ -64,6 +64,19 @@ def check(repo: Repo, rep: Report) -> None:
     sr = repo.fn(TS, "TrampolineScheduler.schedule_required")
     ok = any(isinstance(s.node, ast.Return) and u(s.node.value) == "self.get_trampoline().idle()" for s in sites(sr))
     rep.ob("H1-trampolined-subscribe", sr, "schedule_required() = trampoline.idle()", ok, "schedule_required does not report the trampoline's idle state")
+    # a drain that ends by an exception must not leave the other sources' pending steps behind: the next, unrelated
+    # subscribe on this thread would resurrect them (a zombie never-ending source feeding an exhausted `take`)
+    rep.rule("H4-drain-leaves-nothing", "Trampoline.run empties the queue, under the lock, in the finally that restores idle", floor=1)
+    trun = repo.fn("reactivex/scheduler/trampoline.py", "Trampoline.run")
+    clears = [s for s in sites(trun) if isinstance(s.node, ast.Call) and isinstance(s.node.func, ast.Attribute) and s.node.func.attr == "clear"
+              and dotted(s.node.func.value) == "self._queue"]
+    idles = [s for s in sites(trun) if isinstance(s.node, ast.Assign) and u(s.node.targets[0]) == "self._idle" and u(s.node.value) == "True"]
+    ok = bool(clears) and bool(idles) and all(c.ctx.finals and c.ctx.locks for c in clears) and \
+        any(c.ctx.finals == i.ctx.finals for c in clears for i in idles)
+    rep.ob("H4-drain-leaves-nothing", trun, "finally: with lock: _idle = True; _queue.clear()", ok,
+           "Trampoline.run does not discard the remaining queue when the drain ends (in the finally, under the lock): after an "
+           "action raised, steps queued by other sources survive and are run by the next unrelated subscribe on the thread -- a "
+           "never-ending source whose early terminator is already exhausted keeps producing for ever")
     # producers
     m = model_of(repo)
     rule_producer_poll(repo, rep, "E8-producer-poll")
